@@ -186,10 +186,15 @@ impl Router {
                                 self.handlers.insert(new_receiver_id, handler);
                             },
                             RouterMsg::Shutdown(sender) => {
+                                // Stop for good: leave `run()`, not just this batch of events.
+                                // Once the shutdown is confirmed no handler may be called any
+                                // more, and everything the handlers own must be gone, so that
+                                // whoever consumes what they produce sees the end of it.
+                                self.handlers.clear();
                                 sender
                                     .send(())
                                     .expect("Failed to send comfirmation of shutdown.");
-                                break;
+                                return;
                             },
                         }
                     },
@@ -197,6 +202,9 @@ impl Router {
                     IpcSelectionResult::MessageReceived(id, message) => {
                         self.handlers.get_mut(&id).unwrap()(message)
                     },
+                    // The `RouterProxy` was dropped without a shutdown: nobody can talk to us
+                    // any more, so stop as well (there is no handler for the wakeup channel).
+                    IpcSelectionResult::ChannelClosed(id) if id == self.msg_wakeup_id => return,
                     IpcSelectionResult::ChannelClosed(id) => {
                         let _ = self.handlers.remove(&id).unwrap();
                     },
